@@ -492,7 +492,39 @@ func ruleC11b(c *Ctx) []*report.Result {
 							continue
 						}
 						tb := gb.Succs[0]
-						if !(tb == b || tb.Dominates(b)) || len(tb.Preds) != 1 {
+						if !(tb == b || tb.Dominates(b)) {
+							continue
+						}
+						if len(tb.Preds) != 1 {
+							// a disjunction of such tests (`if t != A && t != B { return }`):
+							// every way into the block must be the success edge of a
+							// test of the same operand against a type of admissible kind
+							all := true
+							for _, pb := range tb.Preds {
+								pif, ok := pb.Instrs[len(pb.Instrs)-1].(*ssa.If)
+								if !ok || pb.Succs[0] != tb || pb.Succs[1] == tb {
+									all = false
+									break
+								}
+								pbo, ok := pif.Cond.(*ssa.BinOp)
+								if !ok || pbo.Op != token.EQL {
+									all = false
+									break
+								}
+								ptp, pg := matchTypeEq(pbo)
+								if ptp == nil || pg == nil {
+									all = false
+									break
+								}
+								pt := lab.TypeGlobal(pg)
+								if pt == nil || !inList(kindOfType(pt), adm) || !lab.typeOperandOf(fn, vp, ptp) {
+									all = false
+									break
+								}
+							}
+							if all {
+								okArm = true
+							}
 							continue
 						}
 						if inList(kindOfType(t), adm) && lab.typeOperandOf(fn, vp, tp) {
